@@ -1145,10 +1145,6 @@ func (g *c05Gen) typ(depth int) reflect.Type {
 	case r < 55:
 		return reflect.SliceOf(g.typ(depth - 1))
 	case r < 59:
-		if g.cycles && !g.defect {
-			// arrays iterated as lists panic under recursion support (recorded defect class)
-			return reflect.SliceOf(g.typ(depth - 1))
-		}
 		return reflect.ArrayOf(g.rng.Intn(3), g.typ(depth-1))
 	case r < 68:
 		return reflect.MapOf(c05KeyTypes[g.rng.Intn(len(c05KeyTypes))], g.typ(depth-1))
@@ -1377,7 +1373,7 @@ func (g *c05Gen) fill(v reflect.Value, depth int) {
 			n := g.rng.Intn(5)
 			if ek == reflect.Bool {
 				n = c05BoolLens[g.rng.Intn(len(c05BoolLens))]
-				if g.defect && g.rng.Intn(3) == 0 {
+				if g.rng.Intn(3) == 0 {
 					n = c05BoolLensLong[g.rng.Intn(len(c05BoolLensLong))]
 				}
 			}
@@ -1584,9 +1580,6 @@ func (g *c05Gen) cfg(root interface{}, recursion bool) *c05Cfg {
 		c05StructTypesOfValue(reflect.ValueOf(root), 0, map[reflect.Type]bool{}, &sts)
 		names := g.rng.Perm(len(c05RecNames))
 		for i, t := range sts {
-			if !g.defect && c05HasOmitTags(t) {
-				continue
-			}
 			if i < len(names) && g.rng.Intn(2) == 0 {
 				k.RecTypes = append(k.RecTypes, t)
 				k.RecNames = append(k.RecNames, c05RecNames[names[i]])
@@ -1595,21 +1588,8 @@ func (g *c05Gen) cfg(root interface{}, recursion bool) *c05Cfg {
 		if !k.recordOrderOK() && g.rng.Intn(4) != 0 {
 			k.RecTypes, k.RecNames = nil, nil
 		}
-		if !g.defect {
-			// records whose values all keep every declared field (the other case is a recorded defect class)
-			k.Omit = configuration.OmitFieldNever
-		}
 	}
 	return k
-}
-
-func c05HasOmitTags(t reflect.Type) bool {
-	for _, f := range c05Extract(t, nil) {
-		if f.Omit == configuration.OmitFieldEmpty || f.Omit == configuration.OmitFieldZero {
-			return true
-		}
-	}
-	return false
 }
 
 // ---------------------------------------------------------------------------
@@ -2081,6 +2061,14 @@ func c05Zoo() []c05ZooEntry {
 		return []interface{}{types.Node{Value: 0, Children: s}, s, s}
 	})
 	e.NeedsRec = true
+	// repaired by /repo 7f07b92: arrays iterated as lists under recursion support
+	e = add("array-list-recursion", func() interface{} {
+		x := 5
+		return []interface{}{[2]string{"a", "b"}, [2][]int16{{1}, nil}, struct{ Arr [2]*int }{[2]*int{&x, &x}}, [0]interface{}{}, [1][1]interface{}{{&x}}}
+	})
+	e.NeedsRec = true
+	e = add("array-root-recursion", func() interface{} { return [3]interface{}{1, "x", nil} })
+	e.NeedsRec = true
 	e = add("shared-edge-node-ptr", func() interface{} {
 		n := &types.Node{Value: 1, Children: []interface{}{2}}
 		return []interface{}{n, n}
@@ -2236,7 +2224,7 @@ func c05Random(sub int64, defect bool) (root interface{}, kc *c05Cfg) {
 }
 
 func runC05(c *Ctx) {
-	c.Rep.Rule = "random values of random types (reflect.StructOf structs with ce tags, slices, arrays, maps, pointers with sharing, interfaces, typed arrays, bool slices, library types, Node, Edge), depth <= 3, each with a random iterator configuration (field-name style, default omit behaviour, record types chosen among the struct types of the value, recursion support 1/3 with cycles); one third of the random cases may contain shapes of the recorded defect classes (edges, bool slices longer than 8, records with omitted fields, signalling float32 NaNs); plus a zoo of hand-written values (bool slices of every length around byte boundaries, edges, records, embedded structs, omit tags on every kind, shared pointers, cycles, slices sharing a base) under 2-5 configurations each; a case is trivial when the document is only nil, a bool or an integer; distinct = distinct (label, configuration, event stream)"
+	c.Rep.Rule = "random values of random types (reflect.StructOf structs with ce tags, slices, arrays, maps, pointers with sharing, interfaces, typed arrays, bool slices, library types, Node, Edge), depth <= 3, each with a random iterator configuration (field-name style, default omit behaviour, record types chosen among the struct types of the value, recursion support 1/3 with cycles); one third of the random cases may contain shapes of the open defect classes (edges, signalling float32 NaNs); plus a zoo of hand-written values (bool slices of every length around byte boundaries, edges, records, embedded structs, omit tags on every kind, shared pointers, cycles, slices sharing a base) under 2-5 configurations each; a case is trivial when the document is only nil, a bool or an integer; distinct = distinct (label, configuration, event stream)"
 	cf := c.Cases("iterate", "CE.Model.Iterate", "iterate_case", "iterate_case_ok")
 	cf.perFile = 100
 
